@@ -120,6 +120,16 @@ class ServerApp:
             return ['no', 1]
         if spec == 'emptylist':
             return []
+        if spec == 'one':
+            return 1
+        if spec == 'onefloat':
+            return 1.0
+        if spec == 'zerofloat':
+            return 0.0
+        if spec == 'num':
+            return 7
+        if spec == 'emptydict':
+            return {}
         if spec == 'raise':
             raise RuntimeError('connect handler failure (injected)')
         return None
@@ -928,6 +938,8 @@ def run_server_scenario(plan, sched_values=None, sched_seed=0):
         }
         hist.digest = k.log_digest()
         hist.sched_digest = k.sched_digest.hexdigest()
+        from . import oracles as _o
+        _o.EPS = _o.EPS0 + k.stall_total
     finally:
         leaked = k.shutdown()
         world.close()
